@@ -56,5 +56,150 @@ theorem edgesL_len (sz : Nat) (p : Option Nat) : ∀ (cs : List NT) (n : Nat), (
     rw [h1, h2]
 end
 
+/-! ### attribute quoting -/
+
+theorem ent_amp : xmlEntity ['a', 'm', 'p'] = some '&' := by decide
+theorem ent_lt : xmlEntity ['l', 't'] = some '<' := by decide
+theorem ent_gt : xmlEntity ['g', 't'] = some '>' := by decide
+theorem ent_quot : xmlEntity ['q', 'u', 'o', 't'] = some '"' := by decide
+theorem ent_10 : xmlEntity ['#', '1', '0'] = some '\n' := by decide
+theorem ent_13 : xmlEntity ['#', '1', '3'] = some '\r' := by decide
+theorem ent_9 : xmlEntity ['#', '9'] = some '\t' := by decide
+
+/-- reading a reference `&name;` whose name has no `;` -/
+theorem dec_ref (q : Char) (hq : q ≠ '&') (name : Str) (hn : ∀ c ∈ name, c ≠ ';') (ch : Char) (he : xmlEntity name = some ch)
+    (rest acc : Str) : decAttr q ('&' :: (name ++ ';' :: rest)) none acc = decAttr q rest none (acc ++ [ch]) := by
+  have hq' : ('&' == q) = false := by simpa using fun h => hq h.symm
+  have loop : ∀ (nm e : Str), (∀ c ∈ nm, c ≠ ';') →
+      decAttr q (nm ++ ';' :: rest) (some e) acc = (match xmlEntity (e ++ nm) with
+        | some ch => decAttr q rest none (acc ++ [ch]) | none => none) := by
+    intro nm
+    induction nm with
+    | nil =>
+      intro e _
+      simp only [List.nil_append, List.append_nil, decAttr, beq_self_eq_true, if_true]
+      cases xmlEntity e <;> rfl
+    | cons c cs ih =>
+      intro e h
+      have hc : (c == ';') = false := by simpa using h c (by simp)
+      simp only [List.cons_append, decAttr, hc, Bool.false_eq_true, if_false]
+      rw [ih (e ++ [c]) (fun d hd => h d (by simp [hd]))]
+      simp
+  simp only [decAttr, hq', Bool.false_eq_true, if_false, beq_self_eq_true, if_true]
+  rw [loop name [] hn]
+  simp [he]
+
+/-- one escaped character is read back as that character (any character other than the delimiter) -/
+theorem dec_esc (q : Char) (hq : q = '"' ∨ q = '\'') (c : Char) (hc : c ≠ q) (rest acc : Str) :
+    decAttr q (xmlEsc c ++ rest) none acc = decAttr q rest none (acc ++ [c]) := by
+  have hqa : q ≠ '&' := by rcases hq with rfl | rfl <;> decide
+  unfold xmlEsc
+  by_cases h1 : c = '&'
+  · subst h1; simpa using dec_ref q hqa ['a', 'm', 'p'] (by decide) '&' ent_amp rest acc
+  by_cases h2 : c = '<'
+  · subst h2; simpa using dec_ref q hqa ['l', 't'] (by decide) '<' ent_lt rest acc
+  by_cases h3 : c = '>'
+  · subst h3; simpa using dec_ref q hqa ['g', 't'] (by decide) '>' ent_gt rest acc
+  by_cases h4 : c = '\n'
+  · subst h4; simpa using dec_ref q hqa ['#', '1', '0'] (by decide) '\n' ent_10 rest acc
+  by_cases h5 : c = '\r'
+  · subst h5; simpa using dec_ref q hqa ['#', '1', '3'] (by decide) '\r' ent_13 rest acc
+  by_cases h6 : c = '\t'
+  · subst h6; simpa using dec_ref q hqa ['#', '9'] (by decide) '\t' ent_9 rest acc
+  have hcq : (c == q) = false := by simpa using hc
+  simp [h1, h2, h3, h4, h5, h6, decAttr, hcq]
+
+theorem dec_quot (rest acc : Str) :
+    decAttr '"' (['&', 'q', 'u', 'o', 't', ';'] ++ rest) none acc = decAttr '"' rest none (acc ++ ['"']) := by
+  simpa using dec_ref '"' (by decide) ['q', 'u', 'o', 't'] (by decide) '"' ent_quot rest acc
+
+/-- a whole escaped value without the delimiter in it, then the delimiter -/
+theorem dec_all (q : Char) (hq : q = '"' ∨ q = '\'') (rest : Str) : ∀ (s acc : Str), (∀ c ∈ s, c ≠ q) →
+    decAttr q (s.flatMap xmlEsc ++ q :: rest) none acc = some (acc ++ s, rest) := by
+  intro s
+  induction s with
+  | nil => intro acc _; simp [decAttr]
+  | cons c cs ih =>
+    intro acc h
+    simp only [List.flatMap_cons, List.append_assoc]
+    rw [dec_esc q hq c (h c (by simp)), ih (acc ++ [c]) (fun d hd => h d (by simp [hd]))]
+    simp
+
+theorem esc_no (x : Char) (hx : x = '"' ∨ x = '\'') (c : Char) (hc : c ≠ x) : x ∉ xmlEsc c := by
+  unfold xmlEsc
+  rcases hx with rfl | rfl
+  all_goals (repeat' split)
+  all_goals first | decide | (simp only [List.mem_singleton]; exact fun h => hc h.symm)
+
+theorem contains_esc (x : Char) (hx : x = '"' ∨ x = '\'') (s : Str) :
+    (s.flatMap xmlEsc).contains x = s.contains x := by
+  induction s with
+  | nil => rfl
+  | cons c cs ih =>
+    simp only [List.flatMap_cons, List.contains_eq_mem, List.mem_append, List.mem_cons] at ih ⊢
+    by_cases hc : c = x
+    · subst hc
+      have : c ∈ xmlEsc c := by
+        unfold xmlEsc
+        rcases hx with rfl | rfl <;> simp
+      simp [this]
+    · have := esc_no x hx c hc
+      have hxc : ¬ x = c := fun h => hc h.symm
+      simp only [this, false_or, hxc]
+      simpa using ih
+
+/-- with both quote characters in the value: `"` is written as `&quot;` -/
+theorem dec_all_quot (rest : Str) : ∀ (s acc : Str),
+    decAttr '"' ((s.flatMap xmlEsc).flatMap quotEsc ++ '"' :: rest) none acc = some (acc ++ s, rest) := by
+  intro s
+  induction s with
+  | nil => intro acc; simp [decAttr]
+  | cons c cs ih =>
+    intro acc
+    simp only [List.flatMap_cons, List.flatMap_append, List.append_assoc]
+    by_cases hc : c = '"'
+    · subst hc
+      have : (xmlEsc '"').flatMap quotEsc = ['&', 'q', 'u', 'o', 't', ';'] := by decide
+      rw [this, dec_quot, ih]
+      simp
+    · have hno := esc_no '"' (Or.inl rfl) c hc
+      have : (xmlEsc c).flatMap quotEsc = xmlEsc c := by
+        have : ∀ l : Str, '"' ∉ l → l.flatMap quotEsc = l := by
+          intro l
+          induction l with
+          | nil => intro _; rfl
+          | cons d ds ihl =>
+            intro h
+            have hd : (d == '"') = false := by simpa using fun e => h (by simp [e])
+            simp only [List.flatMap_cons, quotEsc, hd, Bool.false_eq_true, if_false]
+            rw [ihl (fun e => h (by simp [e]))]
+            rfl
+        exact this _ hno
+      rw [this, dec_esc '"' (Or.inl rfl) c hc, ih]
+      simp
+
+theorem attr_roundtrip (s rest : Str) : parseAttr (quoteAttr s ++ rest) = some (s, rest) := by
+  unfold quoteAttr
+  simp only [contains_esc '"' (Or.inl rfl), contains_esc '\'' (Or.inr rfl)]
+  by_cases h1 : s.contains '"' = true
+  · by_cases h2 : s.contains '\'' = true
+    · simp only [h1, h2, if_true, List.cons_append, List.append_assoc, parseAttr, beq_self_eq_true, Bool.true_or]
+      have := dec_all_quot rest s []
+      simpa using this
+    · have h2' : s.contains '\'' = false := by simpa using h2
+      simp only [h1, h2', if_true, Bool.false_eq_true, if_false, List.cons_append, List.append_assoc, parseAttr]
+      have := dec_all '\'' (Or.inr rfl) rest s [] (by
+        intro c hc e; subst e
+        rw [List.contains_eq_mem] at h2'
+        simp [hc] at h2')
+      simpa using this
+  · have h1' : s.contains '"' = false := by simpa using h1
+    simp only [h1', Bool.false_eq_true, if_false, List.cons_append, List.append_assoc, parseAttr, beq_self_eq_true, Bool.true_or, if_true]
+    have := dec_all '"' (Or.inl rfl) rest s [] (by
+      intro c hc e; subst e
+      rw [List.contains_eq_mem] at h1'
+      simp [hc] at h1')
+    simpa using this
+
 end Aux
 end DendroModel.C02
